@@ -81,6 +81,8 @@ def mk_gmm(I, tag="", C=Cc, D=Dd, gnorms="cached", thr="scalar", trainer="ml", u
         map_alpha=T.sym("alpha" + tag), map_relevance_factor=T.sym("relevance" + tag),
     )
     m.fields.update(extra)
+    # I3 allows the normaliser cache to be EMPTY: the g_norms getter fills it from the current variances (C17.gnorms.lazy)
+    m.lazy_fields = {"_g_norms"}
     return m
 
 
